@@ -191,9 +191,7 @@ def classify (d : Dec) (t : Str) : STok :=
     let u := strip (strip t [g.unitsDelims.1, g.unitsDelims.2]) g.whitespace
     if u.contains g.unitsDelims.1 || u.contains g.unitsDelims.2 then .junk else .units
   else
-    let nameOk := match Tok.isParameterName d t with
-      | .ok true => true
-      | _ => false
+    let nameOk := Tok.isParameterName d t
     match decodeSimple d t with
     | .ok v => if nameOk then .word t (P.valIsNumber v) else .val (P.valIsNumber v)
     | .error _ => if nameOk then .nameOnly t else .junk
